@@ -10,6 +10,17 @@ mod absg;
 mod circ;
 mod eng_circ;
 mod eng_compose;
+mod eng_phase;
+mod eng_f2;
+mod eng_ranktree;
+mod eng_webs;
+mod eng_backends;
+mod eng_scalar;
+mod eng_json;
+mod eng_qasm;
+mod eng_gen;
+mod eng_decomp;
+mod eng_sim;
 mod eng_rules;
 mod eng_simp;
 mod eng_tensor;
@@ -336,6 +347,17 @@ fn main() {
             }
             json!({"circuits": ncirc})
         }
+        "phase" => eng_phase::record(&args, seed, &mut tr),
+        "f2" => eng_f2::record(&args, seed, &mut tr),
+        "ranktree" => eng_ranktree::record(&args, seed, &mut tr),
+        "webs" => eng_webs::record(&args, seed, &mut tr),
+        "backends" => eng_backends::record(&args, seed, &mut tr),
+        "scalar" => eng_scalar::record(&args, seed, &mut tr),
+        "json" => eng_json::record(&args, seed, &mut tr),
+        "qasm" => eng_qasm::record(&args, seed, &mut tr),
+        "gen" => eng_gen::record(&args, seed, &mut tr),
+        "decomp" => eng_decomp::record(&args, seed, &mut tr),
+        "sim" => eng_sim::record(&args, seed, &mut tr),
         _ => {
             eprintln!("unknown engine {engine}");
             std::process::exit(2);
